@@ -39,6 +39,10 @@ def check_shift_scale(ctx, wm: WeaverModel):
             ok = isinstance(got, Num) and got.length is not None and got.r == want.r and got.length == want.length
             ctx.check(ok, 'C14.1', f"{name}: self.{f2} <- self.{f2} {'+' if 'shift' in name else '*'} {pname}", f"stored: {show(got, 200)}",
                       (ls[f2][-1].loc() if f2 in ls else mf.fi.loc()), mf.fi.qualname, f"{name}:{f2}")
+            if f2 in ls:
+                gd = ls[f2][-1].guard
+                ctx.check(not gd, 'C14.1', f"{name}: acts on every sample for every real argument (no condition skips the operation)",
+                          f"only when {[str(g_)[:100] for g_ in gd]}", ls[f2][-1].loc(), mf.fi.qualname, f"{name}:{f2}:uncond")
         others = [f for f in ls if f in ('x', 'y', 'original_x', 'original_y') and f != fld]
         ctx.check(not others, 'C14.1', f"{name}: no other series field is written", f"also writes {others}", mf.fi.loc(), mf.fi.qualname, f"{name}:frame")
 
@@ -52,6 +56,13 @@ def check_normalize(ctx, wm: WeaverModel):
     res, ev, st, fi = runf(ctx.prog, PROC + 'normalize', pos=[a, lo, hi])
     if ev.issues:
         raise AnalysisError(f"C14.2: normalize not canonicalisable: {ev.issues[:3]}")
+    from .common import tolerance_events, flag_used_as_truth
+    tol_ = tolerance_events(ev)
+    if tol_:
+        ctx.fail('C14.2', 'normalize is the documented affine map for every non-constant input',
+                 f"tolerance-based comparison {sorted({e.data['name'] for e in tol_})} at {tol_[0].loc()} selects another result: with the default tolerances a series whose "
+                 f"range is small relative to its level is treated as constant", tol_[0].loc(), fi.qualname, 'normalize:tolerance')
+        return
     r = need_num(ctx, 'C14.2', 'normalize result', res, fi)
     mn, mx = sym.mk_reduce('Min', a.r, L), sym.mk_reduce('Max', a.r, L)
     want = (a.r - mn) / (mx - mn) * (hi.r - lo.r) + lo.r
@@ -84,6 +95,8 @@ def check_trend(ctx, wm: WeaverModel):
     L = sym.sym('L')
     x, y = arr_param('x', length=L), arr_param('y', length=L)
     fun = Term('param', (Const('fun'),))
+    from .common import flag_used_as_truth
+    flag_used_as_truth(ctx, 'C14.3', fi, fi.params()[3], {fi.params()[0]: x, fi.params()[1]: y, fi.params()[2]: fun}, 'trend')
     for normalized in (False, True):
         ev = Evaluator(ctx.prog, opaque_kind=REPO_RESULT_KIND)
         res, st = ev.run_function(fi, pos=[x, y, fun, Const(normalized)])
